@@ -2,7 +2,7 @@
 import html
 import html.parser
 import re
-from urllib.parse import parse_qs, parse_qsl, unquote, urlparse, urlsplit
+from urllib.parse import parse_qs, parse_qsl, unquote, urlparse, urlsplit, urlunsplit
 import common
 from common import enc_str, enc_list, dec_str
 import opbase
@@ -23,8 +23,14 @@ ASSUMPTIONS = ["the agreement of urllib's split with RFC 3986 Appendix B on clea
 
 _srv = None
 WEB, NATIVE = "client_1", "native_app"
-DYN_URIS = ["https://dyn.example.com/cb?tenant=blue", "https://dyn.example.com/cb2"]
-DYN_PL = "https://dyn.example.com/logout_cb?tenant=blue"
+DYN_URIS = ["https://dyn.example.com/cb?tenant=blue", "https://dyn.example.com/cb2", "https://dyn.example.com/OIDC/CallBack?Tenant=Blue"]
+DYN_PL = "https://dyn.example.com/Logout/Done?tenant=blue"
+
+
+def _own_split(u):
+    """(base, query) of a URI the client REGISTERED — by the harness's own reading, not the library's helper"""
+    b, _, q = u.partition("?")
+    return (b, parse_qs(q, keep_blank_values=True) if q else None)
 DYNN_URIS = ["http://localhost:8080/cb", "http://127.0.0.1:8080/cb", "com.example.dyn:/cb"]     # a NATIVE application registering itself
 DYNN = None
 DYN = None       # client_id of the dynamically registered client (set by server())
@@ -90,8 +96,8 @@ def server():
         out = reg.process_request(reg.parse_request({"redirect_uris": DYN_URIS, "post_logout_redirect_uri": DYN_PL, "response_types": ["code"]}))
         DYN = out["response_args"]["client_id"]
         DYN_SECRET = out["response_args"]["client_secret"]
-        PLREGS["dyn"] = [(b, q or None) for b, q in [tuple(split_uri(DYN_PL))]]
-        REG["dyn"] = [(b, q or None) for b, q in (tuple(split_uri(u)) for u in DYN_URIS)]
+        PLREGS["dyn"] = [_own_split(DYN_PL)]
+        REG["dyn"] = [_own_split(u) for u in DYN_URIS]
         global DYNN
         outn = reg.process_request(reg.parse_request({"redirect_uris": DYNN_URIS, "application_type": "native", "response_types": ["code"]}))
         DYNN = outn["response_args"]["client_id"]
@@ -115,7 +121,7 @@ def base_uri(entry):
 
 MUTS = ["same", "scheme_case", "userinfo", "host_suffix", "host_prefix", "port_add", "port_change", "path_extra", "dotseg", "pct_slash", "pct_tab_path",
         "pct_tab_host", "lead_space", "trail_space", "raw_tab", "extra_q", "blank_q", "dup_q", "reorder_q", "fragment", "pct_fragment", "params",
-        "empty_q", "trailing_slash", "pct_letter", "upper_host", "no_scheme", "backslash", "at_trick", "pct_q", "crlf", "double_slash", "port_zero", "bad_port", "empty", "drop_q", "other_q", "port_drop"]
+        "empty_q", "trailing_slash", "pct_letter", "upper_host", "no_scheme", "backslash", "at_trick", "pct_q", "crlf", "double_slash", "port_zero", "bad_port", "empty", "drop_q", "other_q", "port_drop", "lower_all", "upper_path", "swapcase_path"]
 
 
 def mutate(rng, uri, kind):
@@ -176,6 +182,12 @@ def mutate(rng, uri, kind):
         return uri + "/"
     if kind == "pct_letter":
         return uri.replace("cb", "%63b", 1)
+    if kind == "lower_all":
+        return uri.lower()
+    if kind == "upper_path":
+        return urlunsplit(p._replace(path=p.path.upper()))
+    if kind == "swapcase_path":
+        return urlunsplit(p._replace(path=p.path.swapcase()))
     if kind == "upper_host":
         return uri.replace(host, host.upper(), 1) if host else uri
     if kind == "no_scheme":
